@@ -98,6 +98,12 @@ func runProperty(spec *PropSpec, tier, repo, verif string, seed int64, only *rep
 	if tier == "thorough" {
 		configs = append(configs, [2]string{"linux", "386"}, [2]string{"windows", "amd64"}, [2]string{"darwin", "arm64"})
 	}
+	if c := os.Getenv("SECSCHECK_ONLY_CONFIG"); c != "" && only == nil {
+		// development aid: analyse a single extra build configuration (goos/goarch)
+		if g, a, ok := strings.Cut(c, "/"); ok {
+			configs = [][2]string{{g, a}}
+		}
+	}
 	if only != nil && only.Config != "" {
 		// replay of an obligation that was generated under an extra build configuration
 		if g, a, ok := strings.Cut(only.Config, "/"); ok {
